@@ -106,7 +106,7 @@ func c10ErrText(err error) string {
 }
 
 func VerifHarness_C10_Load() {
-	path := verifFSRoot() + "/db/commands.yml"
+	path := verifFSRoot() + []string{"/db/commands.yml", "/db/commands.yaml", "/db/my-unmarshal-notes.yml"}[verifIntRange("fileName", 0, 2)]
 	state := verifIntRange("state", 0, 5)
 	n := 0
 	if state == 5 { // well-formed YAML of another shape than a list of command entries
